@@ -32,38 +32,42 @@ import (
 
 type countedConn struct {
 	net.Conn
-	id   int
-	once sync.Once
-	sc   *rscenario
+	id      int
+	once    sync.Once
+	sc      *rscenario
+	onClose func()
 }
 
 func (c *countedConn) Close() error {
 	c.once.Do(func() {
 		c.sc.rec.add("bc/%d", c.id)
 		atomic.AddInt32(&c.sc.open, -1)
+		if c.onClose != nil {
+			c.onClose()
+		}
 	})
 	return c.Conn.Close()
 }
 
 type rcfg struct {
-	mode      string // plain | group | cg
-	broker    string // ok | silent | unreachable
-	coord     string // ok | slowjoin | joinerr | rebalance | slowhb
-	nmsgs     int    // messages in the log
+	mode       string // plain | group | cg
+	broker     string // ok | silent | unreachable
+	coord      string // ok | slowjoin | joinerr | rebalance | slowhb
+	nmsgs      int    // messages in the log
 	syncCommit bool
 }
 
 type rscenario struct {
-	cfg    rcfg
-	rec    *recorder
-	open   int32 // open connections (broker + coordinator)
-	br     *Broker
-	r      *kafka.Reader
-	cg     *kafka.ConsumerGroup
-	nextC  int
-	done   map[int]chan struct{}
-	cancel map[int]context.CancelFunc
-	closed chan struct{}
+	cfg     rcfg
+	rec     *recorder
+	open    int32 // open connections (broker + coordinator)
+	br      *Broker
+	r       *kafka.Reader
+	cg      *kafka.ConsumerGroup
+	nextC   int
+	done    map[int]chan struct{}
+	cancel  map[int]context.CancelFunc
+	closed  chan struct{}
 	closing bool
 	// coordinator script
 	mu       sync.Mutex
